@@ -46,6 +46,20 @@ example : collectionGet toyMd5 { exScript with order := [("bbbbb".toList, .coll 
 example : collectionGet toyMd5 { exScript with remotes := [("bbbbb".toList, .err 404)], order := [("bbbbb".toList, .err 404)] }
     = .error 404 := by decide
 
+/-- two honest remotes answering together, each with its own signature: exactly two results are
+possible, each remote's manifest labelled with that remote's own id (hypotheses of
+C18_any_order_only_valid / C18_any_order_honest_succeeds) -/
+def exGood2 : Str :=
+  ". 0123456789abcdef0123456789abcdef+3+Afedcba9876543210fedcba9876543210fedcba98@5e000000 0:3:f\n".toList
+def exRace : Script :=
+  { exScript with
+    remotes := [("bbbbb".toList, .coll ⟨"u1".toList, exGood2⟩), ("ccccc".toList, .coll ⟨"u2".toList, exGood⟩)],
+    order := [("bbbbb".toList, .coll ⟨"u1".toList, exGood2⟩), ("ccccc".toList, .coll ⟨"u2".toList, exGood⟩)] }
+example : collectionGetAnyOrder toyMd5 exRace =
+    [.ok ⟨"u1".toList, ". 0123456789abcdef0123456789abcdef+3+Rbbbbb-fedcba9876543210fedcba9876543210fedcba98@5e000000 0:3:f\n".toList⟩,
+     .ok ⟨"u2".toList, ". 0123456789abcdef0123456789abcdef+3+Kzzz+Rccccc-0123456789abcdef0123456789abcdef01234567@5e000000 0:3:f\n".toList⟩] := by
+  decide
+
 /-- a digest with fixed length and no collision at one given text (hypotheses of
 C18_accepted_equals_genuine_modulo_hints and C18_legacy_mismatch_is_error) -/
 def pointMd5 (g x : Str) : Str := if x = g then List.replicate 32 'a' else List.replicate 32 'b'
